@@ -162,4 +162,55 @@ example : delayNodes (.bin .mul (.lit 2) (.idx "x" (.ref "i"))) = [] ∧
     mentionsIndexed "i" (.bin .mul (.lit 2) (.idx "x" (.ref "i"))) = true := by
   constructor <;> decide
 
+/-- **postcheck_invariant_under_substitution.** A simplification pass that substitutes symbols
+    (alias elimination, `eliminable_variable_expression`, replacing parameter/constant values) in
+    the delayed expressions *and* the durations, and removes the substituted variables from the
+    model's lists, does not change the verdict of the duration check — provided every
+    replacement mentions a disallowed symbol exactly when the replaced variable was disallowed
+    (an alias of an algebraic variable is replaced by an algebraic variable, a state or a
+    non-fixed input; a parameter by its value), no state is eliminated and no eliminated name is
+    used with a subscript.  So rejection does not depend on these compiler options. -/
+theorem postcheck_invariant_under_substitution (c : Cats) (σ : String → Option Expr) (gone : String → Bool)
+    (args : List DArg)
+    (ok : ∀ a ∈ args, SubstOk c a.lv σ gone)
+    (hidx : ∀ a ∈ args, ∀ n ∈ idxNames a.dur, gone n = false) :
+    postCheckFails (c.remove gone) (substArgs σ args) = postCheckFails c args := by
+  have key : ∀ (l : List DArg), (∀ a ∈ l, a ∈ args) →
+      (l.map (substArg σ)).any (fun a => (atoms a.lv a.dur).any (disallowed (c.remove gone))) =
+        l.any (fun a => (atoms a.lv a.dur).any (disallowed c)) := by
+    intro l
+    induction l with
+    | nil => intro _; rfl
+    | cons a t ih =>
+      intro hl
+      have ha : a ∈ args := hl a (by simp)
+      have := (subst_atoms (ok a ha) a.dur (hidx a ha)).2
+      simp only [List.map_cons, List.any_cons, substArg, this, ih (fun x hx => hl x (by simp [hx]))]
+  exact key args (fun _ h => h)
+
+example : SubstOk ⟨fun n => if n = "d" ∨ n = "w" then some .alg else none, fun _ => false⟩ none
+    (fun n => if n = "d" then some (.neg (.ref "w")) else none) (fun n => n == "d") := by
+  refine ⟨?_, ?_, ?_, ?_⟩
+  · intro n; by_cases h : n = "d" <;> simp [h]
+  · intro n e h
+    by_cases hn : n = "d"
+    · subst hn; simp at h; subst h; decide
+    · simp [hn] at h
+  · intro n e h
+    by_cases hn : n = "d"
+    · subst hn; simp at h; subst h; decide
+    · simp [hn] at h
+  · intro n h; simp at h; subst h; decide
+
+/-- **cached_calls_agree.** With `cache=True`, any number of successive `transfer_model` calls
+    on the same folder give the outcome of compiling the source — a rejected model is rejected
+    by every call, because a cache file exists only after a compilation that passed
+    `_post_checks`. -/
+theorem cached_calls_agree (v : Verdict) (n : Nat) :
+    ∀ r ∈ transferCalls (compileResult v) n false, r = compileResult v :=
+  transferCalls_agree (compileResult v) n false (by simp)
+
+example : transferCalls (compileResult .reject) 3 false = [.raised, .raised, .raised] ∧
+    transferCalls (compileResult .accept) 2 false = [.returned, .returned] := by decide
+
 end PymocaVerif.Delay
